@@ -566,6 +566,12 @@ func equalsT(t types.Type, x, y value) *smt.Term {
 		if x.t == nil {
 			return smt.True
 		}
+		if x.t == rtypeType {
+			return smt.BoolC(types.Identical(x.v.(rtype).t, y.v.(rtype).t))
+		}
+		if x.t == errorType {
+			return smt.BoolC(x.v == y.v)
+		}
 		if !types.Comparable(x.t) {
 			panic(runtimePanicG("runtime error: comparing uncomparable type " + x.t.String()))
 		}
